@@ -1531,6 +1531,25 @@ class Engine:
                 c.observe(req[1], **req[2])
                 work.append((c, replay + [None]))
                 continue
+            if req[0] == "effect":
+                # a state change of the modelled callee: performed once, when first reached (replays skip it)
+                rv = req[1](c)
+                work.append((c, replay + [rv]))
+                continue
+            if req[0] == "branch":
+                cond = req[1]
+                sc_ = z3.simplify(cond) if z3.is_expr(cond) else z3.BoolVal(bool(cond))
+                if z3.is_true(sc_):
+                    work.append((c, replay + [True]))
+                elif z3.is_false(sc_):
+                    work.append((c, replay + [False]))
+                else:
+                    for val, cc in ((True, cond), (False, z3.Not(cond))):
+                        if self.feasible(c.pc + [cc]):
+                            c2 = c.clone()
+                            c2.pc.append(cc)
+                            work.append((c2, replay + [val]))
+                continue
             if req[0] != "callv":
                 raise Unsupported(f"model script request {req[0]}")
             callee, args = req[1], list(req[2])
@@ -1958,8 +1977,9 @@ class TailCall:
 class Script:
     """model result: the modelled callee performs several calls of real code (closures / bodies) in sequence. `fn(ctx)` is a
     generator: `yield ("callv", closure_or_body, [args])` -> return value of that call; its own return value is the result of
-    the modelled call. A fork inside a step re-plays the generator on each alternative (so it must be deterministic and do its
-    loads/stores through the ctx it is given)."""
+    the modelled call. A fork inside a step re-plays the generator on each alternative, feeding it the recorded answers: it must be
+    deterministic given those answers: it reads and changes state only inside `yield ("effect", lambda ctx: ...)` (performed once;
+    its return value is the answer). `yield ("branch", cond)` -> True/False forks on a symbolic condition; `yield ("observe", label, payload)`."""
     def __init__(self, fn):
         self.fn = fn
 
